@@ -26,9 +26,18 @@ def random_net(rng, nv, nh, mag):
 # extreme=True: the far corner of parameter space - visible biases all strongly negative and the other
 # parameters small, so that some basis states carry an unnormalised weight far below any fixed floor
 # (1e-8, 1e-12, float32 eps ...) while every quantity stays representable
-def random_point(rng, nvmax=5, nhmax=6, budget=1700, extreme=False):
+def random_point(rng, nvmax=5, nhmax=6, budget=1700, extreme=False, huge=False):
     """all parameters non-zero; magnitudes up to ~30 real units (43 lattice units for B = 2);
     the sum of |t| stays below the power-table bound"""
+    if huge:
+        # the opposite corner: visible biases all strongly positive, so that unnormalised probabilities reach
+        # e^400 .. e^600 (products of two of them overflow, each of them does not); needs TMax >= 1000
+        nv, nh = rng.randint(2, min(3, nvmax)), 1
+        B = rng.choice([2, 3])
+        total = int(rng.randint(400, 600) / math.log(B))
+        am = random_net(rng, nv, nh, 2)
+        am["b"] = [total // nv + rng.randint(0, 3) for _ in range(nv)]
+        return dict(nv=nv, nh=nh, B=B, am=am, ph=random_net(rng, nv, nh, 2))
     if extreme:
         nv, nh = rng.randint(2, nvmax), rng.randint(1, min(2, nhmax))
         B = rng.choice([2, 3])
@@ -67,10 +76,11 @@ class PointsFile:
 REUSE = False
 _POOL = {}
 _ROUTE = [0]
+_VISIT = [0]
 
 
 def _assign(rbm, name, value):
-    route = _ROUTE[0] % 4
+    route = (_ROUTE[0] + _ROUTE[0] // 12) % 4        # (the extra term breaks the period 12 = lcm(3, 6, 4) of the wavefunctions)
     _ROUTE[0] += 1
     p = getattr(rbm, name)
     with torch.no_grad():
@@ -91,9 +101,12 @@ def _pooled(key, make):
     if st is None:
         st = _POOL[key] = make()
     else:
-        if _ROUTE[0] % 2 == 0:
-            _failed_call(st, _ROUTE[0] // 2)
-        if _ROUTE[0] % 3 == 0:
+        # (counters of their own: the number of assignments per setting is a multiple of 3 for the wavefunctions,
+        # so _ROUTE itself would ALWAYS reinitialise here and no in-place route would ever meet a used object)
+        _VISIT[0] += 1
+        if _VISIT[0] % 2 == 0:
+            _failed_call(st, _VISIT[0] // 2)
+        if _VISIT[0] % 4 == 0:
             st.reinitialize_parameters()                     # new Parameter objects, then set below
     return st
 
@@ -106,7 +119,9 @@ def _failed_call(st, which):
     nv = st.num_visible
     wide = torch.zeros(3, nv + 1, dtype=torch.double)
     rowsZ = torch.tensor([[(i >> j) & 1 for j in range(nv)] for i in range(6)], dtype=torch.double)
-    bad = np.array([["X"] + ["Z"] * (nv - 1), ["Y"] + ["Z"] * (nv - 1), ["Z"] * nv, ["Q"] + ["Z"] * (nv - 1),
+    # (the unknown letter sits in a row that sorts AFTER the X.. and Y.. rows, so that a grouped evaluation has
+    # already processed some groups when it meets it)
+    bad = np.array([["X"] + ["Z"] * (nv - 1), ["Y"] + ["Z"] * (nv - 1), ["Z"] * nv, ["Z"] * (nv - 1) + ["Q"],
                     ["Z"] * nv, ["X"] + ["Z"] * (nv - 1)])
     calls = [lambda: st.gradient(rowsZ, bases=bad), lambda: st.probability(wide), lambda: st.generate_hilbert_space(size=40),
              lambda: st.rbm_am.effective_energy_gradient(wide), lambda: st.sample(k=1, num_samples=-2),
@@ -117,6 +132,22 @@ def _failed_call(st, which):
         calls[which % len(calls)]()
     except Exception:      # noqa: BLE001 - the point is that the call fails
         pass
+
+
+def pooled_rbm(nv, nh):
+    """a bare BinaryRBM kept per architecture (see REUSE): it has been evaluated at the previous parameter setting
+    when the next one is written into it"""
+    from qucumber.rbm import BinaryRBM
+    if not REUSE:
+        return BinaryRBM(nv, nh, gpu=False)
+    r = _POOL.get(("rbm", nv, nh))
+    if r is None:
+        r = _POOL[("rbm", nv, nh)] = BinaryRBM(nv, nh, gpu=False)
+    else:
+        _VISIT[0] += 1
+        if _VISIT[0] % 4 == 0:
+            r.initialize_parameters()
+    return r
 
 
 def set_net(rbm, net, B):
@@ -138,8 +169,12 @@ def positive_state(pt):
     return s
 
 
+_MODULE_ROT = [0]
+
+
 def complex_state(pt, via_module=False):
-    if via_module:
+    _MODULE_ROT[0] += 1
+    if via_module or _MODULE_ROT[0] % 6 == 0:
         # the documented module= constructor: the user's RBM becomes the amplitude network, the phase
         # network is an independent copy of it that is then given its own parameters
         from qucumber.rbm import BinaryRBM
@@ -178,7 +213,14 @@ def space(nv):
 
 
 # ---- purification RBM / density matrix -------------------------------------------------------
-def random_purif_point(rng, nvmax=4, nhmax=4, namax=4, budget=1700, small=False, extreme=False):
+def random_purif_point(rng, nvmax=4, nhmax=4, namax=4, budget=1700, small=False, extreme=False, huge=False):
+    if huge:       # see random_point: diagonal entries of rho up to e^200 .. e^330
+        pt = random_purif_point(rng, min(3, nvmax), 1, 1, budget, small=True)
+        while pt["nv"] < 2:
+            pt = random_purif_point(rng, min(3, nvmax), 1, 1, budget, small=True)
+        total = int(rng.randint(200, 330) / math.log(pt["B"]))
+        pt["b"] = [total // pt["nv"] + rng.randint(0, 3) for _ in range(pt["nv"])]
+        return pt
     if extreme:
         pt = random_purif_point(rng, nvmax, min(2, nhmax), min(2, namax), budget, small=True)
         while pt["nv"] < 2 <= nvmax:
@@ -188,6 +230,15 @@ def random_purif_point(rng, nvmax=4, nhmax=4, namax=4, budget=1700, small=False,
         m = max(2, min(top, (budget - 3 * (npar - pt["nv"])) // pt["nv"]))
         pt["b"] = [-rng.randint(max(1, (2 * m) // 3), m) for _ in range(pt["nv"])]
         return pt
+    if not small and rng.random() < 0.04:
+        # strong mixing: every auxiliary unit pulls the same way with a large coupling, so that the auxiliary
+        # factor of rho is huge (Re Pi of several hundred) while every entry stays representable
+        nv, nh, na, B = 4, 1, 3, 3
+        u0 = lambda: rng.randint(11, 13)  # noqa: E731
+        return dict(nv=nv, nh=nh, na=na, B=B, W=[[nz(rng, 2) for _ in range(nv)]], b=[-rng.randint(20, 27) for _ in range(nv)],
+                    c=[nz(rng, 2)], u=[[u0() for _ in range(nv)] for _ in range(na)], dd=[u0() for _ in range(na)],
+                    Wm=[[nz(rng, 3) for _ in range(nv)]], cm=[nz(rng, 3)],
+                    um=[[nz(rng, 3) for _ in range(nv)] for _ in range(na)], bmm=[nz(rng, 3) for _ in range(nv)])
     nv, nh, na = rng.randint(1, nvmax), rng.randint(1, nhmax), rng.randint(1, namax)
     B = rng.choice([2, 3])
     top = 43 if B == 2 else 27
@@ -205,7 +256,13 @@ def random_purif_point(rng, nvmax=4, nhmax=4, namax=4, budget=1700, small=False,
 
 
 def density_state(pt):
-    s = _pooled(("density", pt["nv"], pt["nh"], pt["na"]), lambda: DensityMatrix(pt["nv"], pt["nh"], pt["na"], gpu=False))
+    _MODULE_ROT[0] += 1
+    if _MODULE_ROT[0] % 6 == 0:
+        # the documented module= constructor (see complex_state)
+        from qucumber.rbm import PurificationRBM
+        s = DensityMatrix(pt["nv"], module=PurificationRBM(pt["nv"], pt["nh"], pt["na"], gpu=False), gpu=False)
+    else:
+        s = _pooled(("density", pt["nv"], pt["nh"], pt["na"]), lambda: DensityMatrix(pt["nv"], pt["nh"], pt["na"], gpu=False))
     lnB = math.log(pt["B"])
     T = lambda x: torch.tensor(x, dtype=torch.double)  # noqa: E731
     vals = [(s.rbm_am, "weights_W", T(pt["W"]) * lnB), (s.rbm_am, "weights_U", T(pt["u"]) * (2 * lnB)),
